@@ -4,6 +4,12 @@ import json, os
 
 # id -> (technique, level text, design ref)   -- only properties whose rules are built and armed
 CLAIMED = {
+ "C19": ("call-graph rule for recovery coverage, value flow of the limiter layering, threshold rules by edge-feasibility and per-iteration path counts, must-pass-through for restoring the limit",
+         "Structural bounds on hostile input decided on every path: recovery above every callback, limiter below textproto on every init, exact counting/threshold of lineLimitReader, restoration after BDAT, 500+return on too-long lines, error threshold of protocolError. Panic-freedom of the standard library is trusted; the compiler's bounds-check list is cross-reference only.",
+         "DESIGN.md §3 C19"),
+ "C20": ("thread roles x locksets over all field accesses (must-lockset dataflow with interprocedural entry locksets, frozen happens-before edges), lock-order graph, capture rule, path rules for Serve/Close/Shutdown",
+         "Every (field, role, access, lockset) tuple of Conn/Server classified; unordered conflicting pairs are individual obligations (existing ones are listed known findings, new ones fail). Reports possible races; does not prove races occur nor deadlock freedom in general.",
+         "DESIGN.md §3 C20"),
  "C14": ("interval-class abstract interpretation of the three encoders and of the UTF-8 decoder callback; regexp literals parsed from source constants; table agreement (pass-through set vs decoder specials/separators, escape width vs decoder acceptance); field/key pairing",
          "Character-class level agreement of encoders and decoders decided exhaustively over all scalar values (both sides only compare with constants), plus client/server pairing of option fields and keys. Equality of whole option structs, mailbox syntax and time-zone rendering are NOT decided.",
          "DESIGN.md §3 C14"),
